@@ -132,10 +132,11 @@ type Contracts struct {
 	Files   []string
 	PurePkgs map[string]bool // packages whose functions are assumed to assign nothing (logging, formatting)
 	PurePrefixes []string    // function-key prefixes assumed to assign nothing (event firing)
+	Models map[string]string // external function key -> key of a Go-written model function (contracts/models/*.go)
 }
 
 func NewContracts() *Contracts {
-	return &Contracts{Funcs: map[string]*FuncContract{}, Specs: map[string]*SpecFunc{}, Ghosts: map[string]*GhostVar{}, PurePkgs: map[string]bool{}}
+	return &Contracts{Funcs: map[string]*FuncContract{}, Specs: map[string]*SpecFunc{}, Ghosts: map[string]*GhostVar{}, PurePkgs: map[string]bool{}, Models: map[string]string{}}
 }
 
 // rewriteSpec turns spec-only syntax into parseable Go:
@@ -596,6 +597,15 @@ func (cs *Contracts) LoadContractFile(file, pkgPath string) error {
 			cs.Ghosts[fs[0]] = &GhostVar{Name: fs[0], Sort: fs[1]}
 		case "pureprefix":
 			cs.PurePrefixes = append(cs.PurePrefixes, strings.TrimSpace(rest))
+			cur, curLemma, curWriters = nil, nil, nil
+			curDefers = nil
+		case "model":
+			// model EXTERN = MODELFUNC
+			i := strings.Index(rest, "=")
+			if i < 0 {
+				return fmt.Errorf("%s:%d: model EXTERN = FUNC", file, rl.line)
+			}
+			cs.Models[strings.TrimSpace(rest[:i])] = strings.TrimSpace(rest[i+1:])
 			cur, curLemma, curWriters = nil, nil, nil
 			curDefers = nil
 		case "purepkg":
